@@ -93,3 +93,9 @@ pub mod npz;
 /// Read and write tensors in the `.safetensors` format.
 #[cfg(feature = "safetensors")]
 pub mod safetensors;
+
+/// Verification hooks (only compiled with `--cfg rten_verif`): re-exports of
+/// crate-private items so an external harness can call them directly.
+#[cfg(rten_verif)]
+#[doc(hidden)]
+pub mod verif {}
